@@ -186,6 +186,13 @@ impl Send {
         // Validate headers
         Self::check_headers(frame.fields())?;
 
+        // Interim responses can only precede the final response: once the
+        // response head has been sent, or the stream is closed or reset, a
+        // HEADERS frame must not be queued any more.
+        if stream.state.is_send_streaming() || stream.state.is_send_closed() {
+            return Err(UserError::UnexpectedFrameType);
+        }
+
         debug_assert!(frame.is_informational(),
             "Frame must be informational (1xx status code) at this point. Validation should happen at the public API boundary.");
         debug_assert!(!frame.is_end_stream(),
